@@ -11,7 +11,7 @@ import streams as S
 
 ID = "C18"
 MODULE = "JmesVerif.Props.C18"
-THEOREMS = ["C18_success", "C18_failure_shape", "C18_exit0_only_if", "C18_unquoted", "C18_ast_reads_no_input"]
+THEOREMS = ["C18_success", "C18_failure_shape", "C18_exit0_only_if", "C18_unquoted", "C18_ast_reads_no_input", "C18_cli_surface"]
 TRUSTED_BASE = [
     "Lean 4.33 kernel; axioms propext, Classical.choice, Quot.sound only",
     "Model/Cli.lean: hand-written model of jmespath-cli/src/main.rs's decision logic, with the library models plugged in; tied to the code by the "
